@@ -540,8 +540,203 @@ fn c08_initial(t: &[&str]) -> Option<String> {
     }
 }
 
+// ------------------------------------------------------------------ C12 / C13 / C02 / C01 / C03
+
+use crate::geom;
+use crate::state::AnyShape;
+use packing::traits::{Intersect, Potential, Shape as ShapeTrait};
+
+fn verts(s: &packing::LineShape) -> Vec<geom::P2> {
+    s.items.iter().map(|l| (l.start.x, l.start.y)).collect()
+}
+fn discs(s: &packing::MolecularShape2) -> Vec<(f64, f64, f64)> {
+    s.items.iter().map(|a| (a.position.x, a.position.y, a.radius)).collect()
+}
+
+/// signed separation of two placed hard shapes by independent exact geometry; None = not decidable
+/// by this oracle (non-convex outline)
+fn separation(a: &AnyShape, b: &AnyShape) -> Option<f64> {
+    match (a, b) {
+        (AnyShape::Line(x), AnyShape::Line(y)) => {
+            let (p, q) = (verts(x), verts(y));
+            if geom::is_convex(&p) && geom::is_convex(&q) {
+                Some(geom::sat_separation(&p, &q))
+            } else {
+                None
+            }
+        }
+        (AnyShape::Mol(x), AnyShape::Mol(y)) => Some(geom::discs_separation(&discs(x), &discs(y))),
+        _ => None,
+    }
+}
+
+fn place(s: &AnyShape, t: &Transform2) -> AnyShape {
+    match s {
+        AnyShape::Line(x) => AnyShape::Line(x.transform(t)),
+        AnyShape::Mol(x) => AnyShape::Mol(x.transform(t)),
+        AnyShape::LJ(x) => AnyShape::LJ(x.transform(t)),
+    }
+}
+
+fn test(a: &AnyShape, b: &AnyShape) -> Option<bool> {
+    match (a, b) {
+        (AnyShape::Line(x), AnyShape::Line(y)) => Some(x.intersects(y)),
+        (AnyShape::Mol(x), AnyShape::Mol(y)) => Some(x.intersects(y)),
+        _ => None,
+    }
+}
+
+pub const TOL: f64 = 1e-9;
+
+/// C12: <shape> <matA> <matB> <matM>
+fn c12_pair(t: &[&str]) -> Option<String> {
+    let mut k = crate::exec::Toks::new(t);
+    let shape = match crate::state::parse_shape(&mut k)? {
+        Ok(s) => s,
+        Err(_) => return Some("ok holds constructor-error".to_string()),
+    };
+    let (a, b, m) = (k.mat()?, k.mat()?, k.mat()?);
+    let (sa, sb) = (place(&shape, &a), place(&shape, &b));
+    let r = test(&sa, &sb)?;
+    let rs = test(&sb, &sa)?;
+    if r != rs {
+        return Some(format!("ok FAILS asymmetric: a-vs-b {} but b-vs-a {}", r, rs));
+    }
+    let sep = match separation(&sa, &sb) {
+        Some(x) => x,
+        None => return Some("ok holds not-convex-skipped".to_string()),
+    };
+    if r && sep > TOL {
+        return Some(format!("ok FAILS yes for shapes separated by {:e}", sep));
+    }
+    if !r && sep < -TOL {
+        return Some(format!("ok FAILS no for shapes overlapping by {:e}", -sep));
+    }
+    // common rigid motion / reflection: composed as affine maps (the crate's placements may carry
+    // a zero projective row, for which the matrix product would drop the motion's translation)
+    let compose = |m: &Transform2, a: &Transform2| -> Transform2 {
+        let (m, a) = (mat_of(m), mat_of(a));
+        Transform2::from(Matrix3::new(
+            m[(0, 0)] * a[(0, 0)] + m[(0, 1)] * a[(1, 0)],
+            m[(0, 0)] * a[(0, 1)] + m[(0, 1)] * a[(1, 1)],
+            m[(0, 0)] * a[(0, 2)] + m[(0, 1)] * a[(1, 2)] + m[(0, 2)],
+            m[(1, 0)] * a[(0, 0)] + m[(1, 1)] * a[(1, 0)],
+            m[(1, 0)] * a[(0, 1)] + m[(1, 1)] * a[(1, 1)],
+            m[(1, 0)] * a[(0, 2)] + m[(1, 1)] * a[(1, 2)] + m[(1, 2)],
+            a[(2, 0)],
+            a[(2, 1)],
+            a[(2, 2)],
+        ))
+    };
+    let (ma, mb) = (compose(&m, &a), compose(&m, &b));
+    let r2 = test(&place(&shape, &ma), &place(&shape, &mb))?;
+    if r2 != r && sep.abs() > 1e-7 {
+        return Some(format!("ok FAILS answer changes under a common motion (separation {:e}): {} -> {}", sep, r, r2));
+    }
+    Some(format!("ok holds sep={:e}", sep))
+}
+
+fn lj_closed_form(sigma: f64, eps: f64, cutoff: Option<f64>, r: f64) -> f64 {
+    let f = |r: f64| 4.0 * eps * ((sigma / r).powf(12.0) - (sigma / r).powf(6.0));
+    match cutoff {
+        Some(c) => {
+            if r < c {
+                f(r) - f(c)
+            } else {
+                0.0
+            }
+        }
+        None => f(r),
+    }
+}
+
+fn close(a: f64, b: f64, rel: f64, scale: f64) -> bool {
+    (a - b).abs() <= rel * (a.abs().max(b.abs()).max(scale))
+}
+
+/// C13 single pair: x y s e c|- x y s e c|- <matM>
+fn c13_lj(t: &[&str]) -> Option<String> {
+    let mut k = crate::exec::Toks::new(t);
+    let mut mk = |k: &mut crate::exec::Toks| -> Option<packing::LJ2> {
+        let (x, y, s, e) = (k.f()?, k.f()?, k.f()?, k.f()?);
+        let c = crate::opt::opt_f(k)?;
+        Some(packing::LJ2 { position: Point2::new(x, y), sigma: s, epsilon: e, cutoff: c })
+    };
+    let a = mk(&mut k)?;
+    let b = mk(&mut k)?;
+    let m = k.mat()?;
+    let r = ((a.position.x - b.position.x).powi(2) + (a.position.y - b.position.y).powi(2)).sqrt();
+    if !(r > 0.0) {
+        return Some("ok holds r=0-outside-quantifier".to_string());
+    }
+    let e = a.energy(&b);
+    let want = lj_closed_form(a.sigma, a.epsilon, a.cutoff, r);
+    // near the cutoff the truncated law has a kink of size |dE/dr| * rounding(r): scale by the unshifted magnitude
+    let scale = (4.0 * a.epsilon * (a.sigma / r).powf(12.0)).abs().max((4.0 * a.epsilon * (a.sigma / r).powf(6.0)).abs()) * 1e-3;
+    let at_cutoff = a.cutoff.map_or(false, |c| (r - c).abs() < 1e-9 * c.max(1.0));
+    if !at_cutoff && !close(e, want, 1e-9, scale) {
+        return Some(format!("ok FAILS energy {:e} but the shifted truncated 12-6 law gives {:e} at r = {:e}", e, want, r));
+    }
+    if let Some(c) = a.cutoff {
+        if r > c * (1.0 + 1e-9) && e != 0.0 {
+            return Some(format!("ok FAILS non-zero energy {:e} beyond the cutoff", e));
+        }
+    }
+    // rigid motion
+    let (a2, b2) = (m * a.clone(), m * b.clone());
+    if a2.sigma != a.sigma || a2.epsilon != a.epsilon || a2.cutoff != a.cutoff {
+        return Some("ok FAILS transform changed sigma/epsilon/cutoff".to_string());
+    }
+    let e2 = a2.energy(&b2);
+    if !at_cutoff && !close(e, e2, 1e-9, scale) {
+        return Some(format!("ok FAILS energy changes under a common rigid motion: {:e} -> {:e}", e, e2));
+    }
+    // uncut minimum
+    if a.cutoff.is_none() && a.epsilon >= 0.0 && e < -a.epsilon * (1.0 + 1e-9) - 1e-300 {
+        return Some(format!("ok FAILS energy {:e} below the minimum -epsilon = {:e}", e, -a.epsilon));
+    }
+    // symmetry
+    let eb = b.energy(&a);
+    if !at_cutoff && !close(e, eb, 1e-9, scale) {
+        return Some(format!("ok FAILS asymmetric: E(a,b) = {:e}, E(b,a) = {:e}", e, eb));
+    }
+    Some("ok holds".to_string())
+}
+
+/// C13 molecules: <ljshape> <matA> <matB>: energy is the sum over particle pairs
+fn c13_mol(t: &[&str]) -> Option<String> {
+    let mut k = crate::exec::Toks::new(t);
+    let shape = match crate::state::parse_shape(&mut k)? {
+        Ok(AnyShape::LJ(s)) => s,
+        _ => return Some("ok holds not-lj".to_string()),
+    };
+    let (a, b) = (k.mat()?, k.mat()?);
+    let (sa, sb) = (shape.transform(&a), shape.transform(&b));
+    let e = sa.energy(&sb);
+    let mut sum = 0.0;
+    let mut mag = 0.0f64;
+    for x in sa.items.iter() {
+        for y in sb.items.iter() {
+            let r = ((x.position.x - y.position.x).powi(2) + (x.position.y - y.position.y).powi(2)).sqrt();
+            if !(r > 0.0) {
+                return Some("ok holds r=0-outside-quantifier".to_string());
+            }
+            let v = lj_closed_form(x.sigma, x.epsilon, x.cutoff, r);
+            sum += v;
+            mag = mag.max(v.abs());
+        }
+    }
+    if !close(e, sum, 1e-9, mag * 1e-3 + 1e-12) {
+        return Some(format!("ok FAILS molecule energy {:e} but the sum over particle pairs is {:e}", e, sum));
+    }
+    Some("ok holds".to_string())
+}
+
 pub fn oracle(t: &[&str]) -> Option<String> {
     match *t.get(0)? {
+        "c12_pair" => c12_pair(&t[1..]),
+        "c13_lj" => c13_lj(&t[1..]),
+        "c13_mol" => c13_mol(&t[1..]),
         "opt_monitor" => opt_monitor(&t[1..]),
         "opt_prefix" => opt_prefix(&t[1..]),
         "opt_chain" => opt_chain(&t[1..]),
